@@ -569,8 +569,15 @@ func (x *Exec) inlineCall(s *State, fn *ssa.Function, bindings []Val, args []Val
 
 // ---------- contracts at call sites ----------
 
+type copyOut struct {
+	addr *Addr
+	tok  *smt.Term
+	heap string
+}
+
 func (x *Exec) applyContract(s *State, c *Contract, call *ssa.CallCommon, args []Val) (Val, bool) {
 	x.E.usedContracts[c] = true
+	var copyOuts []copyOut
 	sig := call.Signature()
 	vars := map[string]SVal{}
 	argVals := callArgs(call)
@@ -586,8 +593,28 @@ func (x *Exec) applyContract(s *State, c *Contract, call *ssa.CallCommon, args [
 			}
 		}
 		// variadic: remaining args packed by SSA already
+		// &x.f / &local passed to a callee whose contract speaks about deref(p): copy-in / copy-out through a
+		// fresh box (the callee is assumed to reach the location only through this pointer)
+		if av, isAddr := args[i].(AddrVal); isAddr && !(av.A.Kind == BaseBox && len(av.A.Steps) == 0) {
+			if ptr, ok := pt.Underlying().(*types.Pointer); ok && !isStruct(ptr.Elem()) {
+				tok := smt.Fresh("box$"+c.ParamNm[i], smt.Ref)
+				s.assume(smt.Neq(tok, RefNil))
+				bh, _ := x.E.boxHeap(ptr.Elem())
+				cur := x.toTerm(s, x.load(s, av.A), ptr.Elem())
+				s.heap[bh] = smt.Store(x.Heap(s, bh), tok, cur)
+				copyOuts = append(copyOuts, copyOut{addr: av.A, tok: tok, heap: bh})
+				x.E.Note("address-of argument in %s passed by copy-in/copy-out (no other access path assumed)", x.fn.String())
+				vars[c.ParamNm[i]] = SVal{T: tok, GT: pt}
+				continue
+			}
+		}
 		vars[c.ParamNm[i]] = SVal{T: x.argTerm(s, args[i], pt), GT: pt}
 	}
+	defer func() {
+		for _, co := range copyOuts {
+			x.store(s, co.addr, TermVal{smt.Select(x.Heap(s, co.heap), co.tok)})
+		}
+	}()
 	// ghost logical variables of the callee are not supported at call sites
 	pre := copyHeap(s.heap)
 	callerEnv := &SpecEnv{X: x, S: s, Old: pre, Vars: vars, Pkg: c.SpecPkg, Fn: x.fn, CalleeView: true}
